@@ -1521,6 +1521,11 @@ fn gen_recv_op1(rng: &mut Rng, cfg: &E2eCfg) -> (String, usize, bool) {
             1 => {
                 let i = hdr_end + rng.below((pl.len() - hdr_end).min(6) as u64) as usize;
                 pl[i] = rng.next() as u8;
+                // not into an NHC extension-header dispatch: what the IPv6 layer does with fragment /
+                // routing / unknown-option headers is not this property's subject
+                if i == hdr_end && nh_inline.is_none() && pl[i] >> 4 == 0xe {
+                    pl[i] |= 0x10;
+                }
             }
             _ => pl.extend(rb(rng, 1, 4)),
         }
